@@ -695,11 +695,11 @@ ALL_ACTS = ["Index", "Elemwise", "Unary", "AsType", "Transpose", "Reshape", "Exp
             "PadRepeat", "TopK"]
 
 
-def program_cfg(acts, maxlen, preset, sim, smax=3, idxpad=2, emit_all=False, lean=False, excl=(), acts2=()):
+def program_cfg(acts, maxlen, preset, sim, smax=3, idxpad=2, emit_all=False, lean=False, excl=(), acts2=(), acts3=()):
     acts_s = ", ".join(f'"{a}"' for a in acts)
     return (
         "INIT Init\nNEXT Next\nINVARIANT Emit\nINVARIANT WellFormed\nCHECK_DEADLOCK FALSE\nCONSTANTS\n"
-        f"  Acts = {{{acts_s}}}\n  Acts2 = {{{', '.join(chr(34) + a + chr(34) for a in acts2)}}}\n  MaxLen = {maxlen}\n  SrcPreset = \"{preset}\"\n  Sim = {'TRUE' if sim else 'FALSE'}\n"
+        f"  Acts = {{{acts_s}}}\n  Acts2 = {{{', '.join(chr(34) + a + chr(34) for a in acts2)}}}\n  Acts3 = {{{', '.join(chr(34) + a + chr(34) for a in acts3)}}}\n  MaxLen = {maxlen}\n  SrcPreset = \"{preset}\"\n  Sim = {'TRUE' if sim else 'FALSE'}\n"
         f"  SMax = {smax}\n  IdxPad = {idxpad}\n  EmitAll = {'TRUE' if emit_all else 'FALSE'}\n"
         f"  Lean = {'TRUE' if lean else 'FALSE'}\n"
         "  ExclPairs = {" + ", ".join(f'"{a}>{b}"' for a, b in excl) + "}\n"
@@ -723,13 +723,13 @@ class _CachedResult:
 
 
 def generate_programs(acts, maxlen, preset, *, sim, num=None, seed=0, smax=3, idxpad=2, emit_all=False, rundir=None,
-                      timeout=900, depth=None, lean=False, workers=1, excl=(), cache=True, acts2=(), observe_all=False):
+                      timeout=900, depth=None, lean=False, workers=1, excl=(), cache=True, acts2=(), observe_all=False, acts3=()):
     """Behaviours of ArrayProgram.tla for one configuration.  The output depends only on the specification
     and the configuration, so it is cached under /verif/.cache keyed by their content hash (nothing that touches
     /repo is ever cached)."""
     import pickle
 
-    cfg = program_cfg(acts, maxlen, preset, sim, smax, idxpad, emit_all, lean, excl, acts2)
+    cfg = program_cfg(acts, maxlen, preset, sim, smax, idxpad, emit_all, lean, excl, acts2, acts3)
     h = _spec_hash()
     h.update(cfg.encode())
     h.update(repr((sim, num, seed, depth)).encode())
